@@ -97,8 +97,8 @@ Prefix(s, k) == {s[i] : i \in {x \in 1..k : s[x].t # "newview"}}
 (* The watch value matters only to the leader of the view it justifies (proposer.rs:27-30). *)
 WatchFor(r, j) == IF j # NoJust /\ Leader(JView(j)) = r THEN j ELSE NoJust
 Apply(r, res, k, act) ==
-    LET d1 == IF res.persist /\ Weaken # "send_before_persist" THEN Dur(res.rs) ELSE dur[r]
-        d1full == IF res.persist THEN Dur(res.rs) ELSE dur[r]
+    LET d1 == IF res.persist /\ Weaken # "send_before_persist" THEN Dur(res.prs) ELSE dur[r]
+        d1full == IF res.persist THEN Dur(res.prs) ELSE dur[r]
     IN IF k = -1
        THEN /\ rs' = [rs EXCEPT ![r] = res.rs]
             /\ store' = [store EXCEPT ![r] = res.store]
@@ -266,6 +266,14 @@ Monotone ==
 (* a replica is in view v > 0 only if it holds a certificate for v-1 (or higher) *)
 ViewJustified ==
     \A r \in Correct : rs[r].view > 0 => (rs[r].hcq.view >= rs[r].view - 1 \/ rs[r].htq.view >= rs[r].view - 1)
+(* T4 target for liveness weakenings (must be violated on a weakened spec, never checked on the faithful one as a property of  *)
+(* the design): one replica is ahead of every other correct replica WITHOUT holding the certificate of the previous view, and  *)
+(* no other correct replica holds it either - retransmission cannot bring the others up and it cannot go back.                 *)
+Unjust(r) == rs[r].view > 0 /\ ~(rs[r].hcq.view >= rs[r].view - 1 \/ rs[r].htq.view >= rs[r].view - 1)
+NoStuckCandidate ==
+    ~\E r \in Correct : /\ Unjust(r)
+                        /\ \A r2 \in Correct \ {r} : /\ rs[r2].view < rs[r].view
+                                                      /\ rs[r2].hcq.view < rs[r].view - 1 /\ rs[r2].htq.view < rs[r].view - 1
 (* certificates held are formable from what was signed: quorum-backed *)
 HeldCertsBacked ==
     \A r \in Correct : rs[r].hcq # NoVote => Certifiable(rs[r].hcq)
